@@ -13,7 +13,7 @@ git -C /repo worktree add -q --detach "$wt" HEAD
 mkdir -p "$vf"
 rsync -a --exclude target --exclude .git --exclude replays --exclude evidence --exclude harness/repo_src /verif/ "$vf"/
 # reuse the dependency build of the main target dir to save time (copied, not shared)
-mkdir -p "$vf/target" && cp -r /verif/target/harness "$vf/target/" 2>/dev/null || true
+# (clean build in the scratch copy: a copied target dir can look fresh to cargo)
 rc=0
 for c in "$@"; do
   ( cd "$vf" && VERIF_REPO="$wt" ./check "$c" ${VERIF_TIER:-quick} 2>&1 | grep -v "^  new finding" | cut -c1-300 ) || true
